@@ -126,13 +126,7 @@ Proof. exact history_repeat_zero. Qed.
 
 (* ---- vnc update-request queue (the service itself is only observed, part "sweep") ---- *)
 
-(* at HEAD ([fixed] = false): once the frame pusher is gone, more buffered update requests than
-   free queue slots make serve() wait for ever - for every schedule *)
-Theorem C09_vnc_queue_blocks_at_head : forall sched reqs q,
-  (q <= VNC_QCAP)%nat -> (VNC_QCAP - q < reqs)%nat -> serve_queue false sched reqs q PGone = QBlocked.
-Proof. exact serve_queue_head_blocks. Qed.
-
-(* with the send selecting on 'pusher gone' (fixes/C09-vnc-serve-does-not-wait-for-a-gone-pusher.patch)
+(* the send selects on 'pusher gone' (repo commit 6a3f962; [fixed] = true is the code):
    serve() never waits for ever: for every number of buffered requests, queue filling, pusher
    state and schedule of the pusher *)
 Theorem C09_vnc_queue_never_blocks_with_fix : forall sched reqs q p,
@@ -140,11 +134,11 @@ Theorem C09_vnc_queue_never_blocks_with_fix : forall sched reqs q p,
 Proof. exact serve_queue_fixed_never_blocks. Qed.
 
 (* the witness replayed on the implementation (sweep, vnc scenario 5): the pusher takes the
-   first request and gives up; 129 pipelined requests still fit, the 130th waits for ever *)
+   first request and gives up; 129 pipelined requests still fit, at the 130th serve() sees that
+   the pusher is gone and ends (before the fix it waited for ever) *)
 Example C09_vnc_queue_130 :
   let sched := [mkPact 0 false; mkPact 1 true] in
-  serve_queue false sched 129 0 PAlive = QDone 128 PGone /\
-  serve_queue false sched 130 0 PAlive = QBlocked /\
+  serve_queue true sched 129 0 PAlive = QDone 128 PGone /\
   serve_queue true sched 130 0 PAlive = QFailed.
 Proof. vm_compute. repeat split; reflexivity. Qed.
 
@@ -236,5 +230,4 @@ Print Assumptions C09_released_ftp.
 Print Assumptions C09_released_other_services.
 Print Assumptions C09_history_additive.
 Print Assumptions C09_history_flat.
-Print Assumptions C09_vnc_queue_blocks_at_head.
 Print Assumptions C09_vnc_queue_never_blocks_with_fix.
